@@ -85,7 +85,6 @@ def run(tier):
     chk.model("MC_Vectors")
     # static half: symbolic placement, every access of every routine inside its region
     found = c09.analyse(chk, tier, ("C11",))
-    found = [f for f in found if "uninitialised" not in f[2]]
     c09.report(chk, found, strip)
     # dynamic half: guard pages
     chk.exec_and_validate("T_Guard", gen(chk, tier), keyfn, accel=True, pure_budget=0)
@@ -100,7 +99,7 @@ def run(tier):
         "short src or dst must panic without touching memory beyond the slice",
         ["TLC; AsmMachine.tla + vlib/asmx.py classification (fail closed); mmap/mprotect guard placement in the executor",
          "debug.SetPanicOnFault turns faults in assembly into recoverable panics (measured in this sandbox)",
-         "arm64 routines are not covered (no emulator, no arm64 semantics table yet)"])
+         "arm64: static half only (all twelve TEXT symbols in the abstract machine); nothing arm64 can be executed here"])
 
 
 def replay(path):
